@@ -1333,6 +1333,7 @@ struct ssl
     psProtocolVersion_t peerSupportedVersionsPriority[TLS_MAX_SUPPORTED_VERSIONS];
     psSize_t peerSupportedVersionsPriorityLen;
     psBool_t tls13IncorrectDheKeyShare;
+    uint16_t tls13HrrCipherSuite; /* Client: suite named by the HelloRetryRequest (0 = none received) */
     psBool_t gotTls13CiphersuiteInCH; /* Does CH contain any 1.3 suites? */
     uint16_t tls13SupportedSigAlgsCert[TLS_MAX_SIGNATURE_ALGORITHMS];
     psSize_t tls13SupportedSigAlgsCertLen;
